@@ -6,7 +6,7 @@
 From Coq Require Import ZArith List String Bool.
 From Model Require Import PyBase Graph PeriodicTable Stereo Rdkit RdkitRegistry.
 From Gen Require Import Elements RdkitTables StereoTables RdkitConsts.
-From Proofs Require Import StereoProofs RdkitProofs RdkitExt RdkitExt2 RdkitExt3 RdkitExt4 RdkitExt5.
+From Proofs Require Import StereoProofs RdkitProofs RdkitExt RdkitExt2 RdkitExt3 RdkitExt4 RdkitExt5 RdkitExt6.
 Import ListNotations.
 Open Scope string_scope.
 Open Scope Z_scope.
@@ -660,3 +660,76 @@ Theorem C20_models_use_generated_constants :
   (forall chg, ((4 <? chg) || (chg <? -4)) = ((charge_max <? chg) || (chg <? charge_min))).
 Proof. exact models_use_generated_constants. Qed.
 Print Assumptions C20_models_use_generated_constants.
+
+(* ---- the adjacency from_rdkit_molecule rebuilds ---- *)
+(* atoms first, then add_bond per RDKit bond (appended at both ends): the neighbours of an atom are exactly the bonds incident to
+   it, in the order of the bond list *)
+Theorem C20_built_neighbours : forall nums bonds k,
+  (forall a b o, In (a, b, o) bonds -> In a nums /\ In b nums /\ a <> b) -> In k nums ->
+  plain (nbrs_in (build_adj nums bonds) k) = incident k bonds.
+Proof. exact built_neighbours. Qed.
+Print Assumptions C20_built_neighbours.
+
+(* with the bond list C20_bridge_molecule_inverse_from_to delivers (bond by bond the renamed ends, either way round), the rebuilt
+   molecule satisfies the neighbour hypothesis [same_nbrs] of C20_bridge_stereo_molecule_tetrahedra_graph at EVERY atom, whenever
+   the adjacency of the molecule given lists every bond of data.bonds() at both ends *)
+Theorem C20_rebuilt_same_nbrs : forall nums, NoDup nums -> forall g atoms' B B' n,
+  (forall a b o, In (a, b, o) B -> a <> b) -> adjacency_of nums g B ->
+  Forall2 (fun b b' => bond_image nums b (fun i j o => same_bond b' (Z.of_nat i + 1, Z.of_nat j + 1, o) = true)) B B' ->
+  In n nums ->
+  same_nbrs g (mkMol atoms' (build_adj (map (rho_of nums) nums) B')) (rho_of nums) n.
+Proof. exact rebuilt_same_nbrs. Qed.
+Print Assumptions C20_rebuilt_same_nbrs.
+
+(* ---- end to end: structure AND tetrahedral configuration of a whole molecule, the rebuilt molecule being computed ---- *)
+(* The molecule given: atoms, adjacency, data.bonds(), labels.  Hypotheses: it is well formed (pairwise different numbers, atoms in
+   range with a hydrogen count, loop-free bonds between its atoms with supported orders, the adjacency lists every bond at both
+   ends) and, for every labelled stereogenic centre, RDKit lists that centre's neighbours (as indices, in ANY order).  Then
+   to_rdkit_molecule's transfer succeeds, from_rdkit_molecule's transfer succeeds, and in the molecule it rebuilds -- atoms by
+   from_mol, adjacency by add_bond in RDKit's bond order, registry by stereogenic_tetrahedrons of THAT graph -- every labelled
+   centre carries a label that denotes the same configuration (translated to the renamed old neighbour order it is the old
+   label), all other atoms none.  Nothing about registries, arrangements or the rebuilt graph is assumed. *)
+Theorem C20_bridge_tetrahedra_end_to_end : forall (symbol : Z -> string),
+  (forall z e, from_symbol (symbol z) = Some e -> e_num e = z) ->
+  forall keep atoms adj B lab lab' nb impls xy,
+  let nums := map fst atoms in
+  let rho := rho_of nums in
+  let g := mkMol (graph_atoms atoms lab) adj in
+  let atoms' := expect_atoms keep 0 atoms impls xy in
+  NoDup nums -> atoms_ok symbol atoms ->
+  (forall n m o, In (n, m, o) B -> In n nums /\ In m nums /\ In o [1; 2; 3; 4; 8] /\ n <> m) ->
+  adjacency_of nums g B ->
+  (forall i n, nth_error nums i = Some n -> lab n <> None -> stereogenic_entry g n <> None ->
+     NoDup (nbr_ids g n) /\ Permutation.Permutation (nbr_ids g n) (env_old nums nb (Z.of_nat i)) /\
+     (forall j, In j (nb (Z.of_nat i)) -> 0 <= j < Z.of_nat (List.length nums))) ->
+  exists ras rbs bonds', to_mol keep (atoms, B) = Ok (ras, rbs) /\
+    from_mol symbol impls xy (ras, rbs) = Ok (atoms', bonds') /\
+    let g' := mkMol (graph_atoms atoms' lab') (build_adj (map rho nums) bonds') in
+    exists tags, to_tags (is_hydrogen g) (stereogenic_tetrahedrons_of g) nums nb 0 (map (fun n => (n, lab n)) nums) = Ok tags /\
+      exists labels', from_tags (is_hydrogen g') (stereogenic_tetrahedrons_of g') nb 0 (map tag_name tags) = Ok labels' /\
+        Forall2 (label_image (is_hydrogen g') (stereogenic_tetrahedrons_of g) (stereogenic_tetrahedrons_of g') rho)
+                (map (fun n => (n, lab n)) nums) labels'.
+Proof. exact tetrahedra_end_to_end. Qed.
+Print Assumptions C20_bridge_tetrahedra_end_to_end.
+
+(* non-vacuity of its hypotheses *)
+Theorem C20_bridge_tetrahedra_end_to_end_example :
+  let atoms := [(3, mkC 7 None 0 false (Some 2) None 0 0); (7, mkC 6 None 0 false (Some 0) None 0 0);
+                (9, mkC 6 None 0 false (Some 3) None 0 0); (4, mkC 6 None 0 false (Some 3) None 0 0);
+                (5, mkC 1 None 0 false (Some 0) None 0 0)] in
+  let sb := mkBond 1 None in
+  let adj := [(3, [(7, sb)]); (7, [(3, sb); (9, sb); (4, sb); (5, sb)]); (9, [(7, sb)]); (4, [(7, sb)]); (5, [(7, sb)])] in
+  let B := [(3, 7, 1); (7, 9, 1); (7, 4, 1); (7, 5, 1)] in
+  let lab := fun n => if n =? 7 then Some true else None in
+  let nb := fun k => if k =? 1 then [3; 0; 4; 2] else [1] in
+  let nums := map fst atoms in
+  let g := mkMol (graph_atoms atoms lab) adj in
+  NoDup nums /\ atoms_ok chython_symbol atoms /\
+  (forall n m o, In (n, m, o) B -> In n nums /\ In m nums /\ In o [1; 2; 3; 4; 8] /\ n <> m) /\
+  adjacency_of nums g B /\
+  (forall i n, nth_error nums i = Some n -> lab n <> None -> stereogenic_entry g n <> None ->
+     NoDup (nbr_ids g n) /\ Permutation.Permutation (nbr_ids g n) (env_old nums nb (Z.of_nat i)) /\
+     (forall j, In j (nb (Z.of_nat i)) -> 0 <= j < Z.of_nat (List.length nums))) /\
+  stereogenic_tetrahedrons_of g = [(7, [3; 9; 4])].
+Proof. exact end_to_end_example. Qed.
+Print Assumptions C20_bridge_tetrahedra_end_to_end_example.
